@@ -1,5 +1,6 @@
 '''C14 Missing-value operations act per cell exactly as specified.'''
 from sfa.report import Ctx
+from sfa.rules import forwardrules
 from sfa.rules import flowmisc
 from sfa.rules import narules
 from sfa.rules import table
@@ -13,7 +14,7 @@ LEVEL_TEXT = (
     'are the negated condition over the unified isna mask and Frame / Series dropna select labels and data with those same keys; (d) edge fills: per path, '
     'the leading / forward-bridging slice is slice(0, T[0]) and the trailing / backward one slice(T[-1] + 1, end) with T the positions of present cells, '
     'chosen by the routine\'s own direction flag; (e) contradiction rule: within one loop all paths update the same carried counter cell the same way '
-    '(accumulate or define); (f) every fill / isna / notna interface of Series and Frame returns a container labelled by exactly the original index (and columns) and, for fills, the original name. Not decided: binary_transition / slices_from_targets arithmetic, limit counting across blocks beyond (e), count values.')
+    '(accumulate or define); (f) every fill / isna / notna interface of Series and Frame returns a container labelled by exactly the original index (and columns) and, for fills, the original name. Option forwarding: in every missing-value interface each call to a resolved callee that accepts a parameter named like one of the function\'s own parameters passes it on (confirmed exceptions listed in sfa/rules/forwardrules.py). Not decided: binary_transition / slices_from_targets arithmetic, limit counting across blocks beyond (e), count values.')
 
 CLAIM = dict(
     text=LEVEL_TEXT,
@@ -29,3 +30,4 @@ def run(ctx: Ctx) -> None:
     narules.sided_slices(ctx)
     flowmisc.accumulator_consistency(ctx)
     updaterules.label_passthrough(ctx, only=('fillna', 'fillna_leading', 'fillna_trailing', 'fillna_forward', 'fillna_backward', 'isna', 'notna'), rule_suffix='na')
+    forwardrules.forwarding(ctx, modules=None, prefixes=('fillna', 'dropna', 'isna', 'notna', '_fillna', 'count', 'fillfalsy', 'dropfalsy'), suffix='na', floor=36, what='missing-value interface')
